@@ -198,3 +198,58 @@ Proof.
     exists ca, c. auto 10.
   - left. split; [reflexivity|]. rewrite (Hn eq_refl) in Hcf. exact Hcf.
 Qed.
+
+(* ---- contrapositives used by C05 / C06: a listed or out-of-date artefact is refused ---- *)
+Theorem listed_rejected w qq o wall ch ext ca c :
+  extract_chain w qq = Ok ch -> cPckExt (chLeaf ch) = Some ext -> extract_ca (chLeaf ch) = Ok ca ->
+  fst (obtain_collateral w (eFmspc ext) ca o) = Ok c -> optCheckRevocations o = true ->
+  ((exists pc, colPckCrl c = Some pc /\ In (cSerial (chLeaf ch)) (rlRevoked pc)) \/
+   (exists rc, colRootCrl c = Some rc /\
+      (In (cSerial (chInter ch)) (rlRevoked rc) \/ In (cSerial (colTcbSigner c)) (rlRevoked rc) \/
+       In (cSerial (colQeSigner c)) (rlRevoked rc)))) ->
+  fst (verify w (Some qq) (Some o) wall) <> Ok tt.
+Proof.
+  intros Hch Hext Hca Hob Hr Hl H.
+  apply accept_facts in H as (qq' & ch' & ext' & col & Hq & _ & Hch' & Hext' & Hcf & _ & _ & Hc).
+  inversion Hq; subst qq'. rewrite Hch in Hch'. inversion Hch'; subst ch'.
+  rewrite Hext in Hext'. inversion Hext'; subst ext'.
+  destruct (cf_revocation _ _ _ _ _ _ Hcf Hr) as (Hg & c' & rc & pc & Hcol & Hrc & Hpc & _ & _ & _ & N1 & N2).
+  destruct (Hc Hg) as (c'' & ca' & Hc'' & Hca' & Hob' & _ & _ & T & Q & _).
+  rewrite Hcol in Hc''. inversion Hc''; subst c''. rewrite Hca in Hca'. inversion Hca'; subst ca'.
+  rewrite Hob in Hob'. inversion Hob'; subst c'.
+  destruct (rf_revocation _ _ _ _ _ _ _ _ _ (tf_response _ _ _ _ _ T) Hr) as (_ & rc1 & E1 & _ & M1).
+  destruct (rf_revocation _ _ _ _ _ _ _ _ _ (qf_response _ _ _ _ _ Q) Hr) as (_ & rc2 & E2 & _ & M2).
+  rewrite Hrc in E1, E2. inversion E1; subst rc1. inversion E2; subst rc2.
+  destruct Hl as [(pc' & Epc & Hin)|(rc' & Erc & [Hin|[Hin|Hin]])].
+  - rewrite Hpc in Epc. inversion Epc; subst pc'. exact (N2 Hin).
+  - rewrite Hrc in Erc. inversion Erc; subst rc'. exact (N1 Hin).
+  - rewrite Hrc in Erc. inversion Erc; subst rc'. exact (M1 Hin).
+  - rewrite Hrc in Erc. inversion Erc; subst rc'. exact (M2 Hin).
+Qed.
+
+Theorem out_of_date_rejected w qq o wall ch ext ca c :
+  extract_chain w qq = Ok ch -> cPckExt (chLeaf ch) = Some ext -> extract_ca (chLeaf ch) = Ok ca ->
+  fst (obtain_collateral w (eFmspc ext) ca o) = Ok c -> optGetCollateral o = true ->
+  let now := now_of o wall in
+  ((tiNextUpdate (colTcbInfo c) < tTcbInfo now)%Z \/ (qiNextUpdate (colQeId c) < tQeId now)%Z \/
+   (cNotAfter (colTcbSigner c) < tTcbInfo now)%Z \/ (cNotAfter (colQeSigner c) < tQeId now)%Z \/
+   (cNotAfter (chLeaf ch) < tPck now)%Z \/ (cNotAfter (chInter ch) < tPck now)%Z \/ (cNotAfter (chRoot ch) < tPck now)%Z \/
+   (optCheckRevocations o = true /\
+    ((exists pc, colPckCrl c = Some pc /\ (rlNextUpdate pc < tPckCrl now)%Z) \/
+     (exists rc, colRootCrl c = Some rc /\ (rlNextUpdate rc < tRootCrl now)%Z)))) ->
+  fst (verify w (Some qq) (Some o) wall) <> Ok tt.
+Proof.
+  intros Hch Hext Hca Hob Hg now Hl H.
+  apply accept_facts in H as (qq' & ch' & ext' & col & Hq & _ & Hch' & Hext' & Hcf & _ & _ & Hc).
+  inversion Hq; subst qq'. rewrite Hch in Hch'. inversion Hch'; subst ch'.
+  rewrite Hext in Hext'. inversion Hext'; subst ext'.
+  destruct (Hc Hg) as (c' & ca' & Hcol & Hca' & Hob' & _ & K & _).
+  rewrite Hca in Hca'. inversion Hca'; subst ca'. rewrite Hob in Hob'. inversion Hob'; subst c'.
+  destruct K as [_ [T1 [T2 T3]] [Q1 [Q2 Q3]] Kcrl]. destruct (cf_expiry _ _ _ _ _ _ Hcf) as [X1 [X2 X3]].
+  fold now in T1, T2, T3, Q1, Q2, Q3, X1, X2, X3.
+  destruct Hl as [L|[L|[L|[L|[L|[L|[L|[Hr L]]]]]]]]; try lia.
+  destruct (Kcrl Hr) as (rc & pc & ps & pr & Erc & Epc & _ & _ & B1 & B2 & _). fold now in B1, B2.
+  destruct L as [(pc' & E & L)|(rc' & E & L)].
+  - rewrite Epc in E. inversion E; subst pc'. lia.
+  - rewrite Erc in E. inversion E; subst rc'. lia.
+Qed.
